@@ -176,10 +176,10 @@ theorem get_singles (ι : PfxInterp) (vr : Rib.Variant) (es : List DEntry) (r : 
           simp only [hh, if_false]
           have hn : (payload ι e.2.2.1 .active e.1 e.2.2.2 e.2.1).hits false p m = false := by
             simp only [Rib.Payload.hits, payload, ne_eq, reduceCtorEq, not_false_eq_true, decide_true, Bool.true_and,
-              Bool.and_eq_false_iff, decide_eq_false_iff_not]
+              Bool.and_eq_false_iff]
             by_cases h1 : ι e.1 e.2.1 = p
-            · exact Or.inr (by simpa using fun h2 => hh ⟨h1, h2⟩)
-            · exact Or.inl (by simpa using h1)
+            · exact Or.inr (decide_eq_false (fun h2 => hh ⟨h1, h2⟩))
+            · exact Or.inl (decide_eq_false h1)
           simp [hn]
 
 theorem wd_singles (ι : PfxInterp) (vr : Rib.Variant) (es : List DEntry) (r : Rib) (mc : Bool) (f : Rib.Fam) :
@@ -202,5 +202,479 @@ theorem WF_singles (ι : PfxInterp) (vr : Rib.Variant) (es : List DEntry) (r : R
       simp [singlesOf, Rib.applyAll, Rib.apply]
     rw [hstep]
     exact ih _ (Rib.WF_insertPayload r h _)
+
+/-! ### The ingress register: lookups are stable -/
+
+theorem find_eq (r : Mrt.Reg) (par : Nat) (q : Mrt.Peer) :
+    r.find (some par) q = (r.infos.find? (fun e => decide (e.2.1 = par ∧ e.2.2 = q))).map (·.1) := by
+  simp only [Mrt.Reg.find]
+  split <;> rename_i h <;> rw [h] <;> rfl
+
+/-- The lookup after one registration. -/
+theorem find_register (r : Mrt.Reg) (par par' : Nat) (p q : Mrt.Peer) :
+    (r.register par p).1.find (some par') q =
+      match r.find (some par') q with
+      | some id => some id
+      | none => if par = par' ∧ p = q then some r.next else none := by
+  simp only [find_eq, Mrt.Reg.register, List.find?_append]
+  cases r.infos.find? (fun e => decide (e.2.1 = par' ∧ e.2.2 = q)) with
+  | some e => rfl
+  | none =>
+    by_cases h : par = par' ∧ p = q
+    · simp [h]
+    · simp [h]
+
+theorem find_register_mono (r : Mrt.Reg) (par par' : Nat) (p q : Mrt.Peer) (id : Nat)
+    (h : r.find (some par') q = some id) : (r.register par p).1.find (some par') q = some id := by
+  rw [find_register, h]
+
+/-- `find_or_register_peer`, as `process_message` uses it. -/
+def lookupOrRegister (r : Mrt.Reg) (par : Nat) (p : Mrt.Peer) : Mrt.Reg × Nat :=
+  match r.find (some par) p with
+  | some id => (r, id)
+  | none => r.register par p
+
+theorem lookupOrRegister_find (r : Mrt.Reg) (par : Nat) (p : Mrt.Peer) :
+    (lookupOrRegister r par p).1.find (some par) p = some (lookupOrRegister r par p).2 := by
+  unfold lookupOrRegister
+  cases h : r.find (some par) p with
+  | some id => exact h
+  | none => rw [find_register, h]; simp [Mrt.Reg.register]
+
+theorem lookupOrRegister_mono (r : Mrt.Reg) (par : Nat) (p q : Mrt.Peer) (id : Nat)
+    (h : r.find (some par) q = some id) : (lookupOrRegister r par p).1.find (some par) q = some id := by
+  unfold lookupOrRegister
+  cases r.find (some par) p with
+  | some _ => exact h
+  | none => exact find_register_mono r par par p q id h
+
+theorem lookupOrRegister_known (r : Mrt.Reg) (par : Nat) (p x : Mrt.Peer) :
+    knownIn (lookupOrRegister r par p).1 par x = (decide (x = p) || knownIn r par x) := by
+  unfold lookupOrRegister knownIn
+  cases h : r.find (some par) p with
+  | some id =>
+    by_cases hx : x = p
+    · subst hx; simp [h]
+    · simp [hx]
+  | none =>
+    simp only [find_register]
+    cases hx : r.find (some par) x with
+    | some id' => simp
+    | none =>
+      by_cases hp : p = x
+      · subst hp; simp
+      · have : ¬ x = p := fun e => hp e.symm
+        simp [hp, this]
+
+theorem msgLoop_update (v : Mrt.Variant) (par : Nat) (reg : Mrt.Reg) (p : Mrt.Peer) (v6 : Bool) (ann wd : List Nat)
+    (a : Nat) (rest : List Mrt.Rec) :
+    Mrt.msgLoop v par reg (.msg p (.update v6 ann wd a) :: rest) =
+      ⟨(Mrt.msgLoop v par (lookupOrRegister reg par p).1 rest).reg,
+       .bulk (lookupOrRegister reg par p).2 v6 ann (Mrt.keptWd v ann wd) :: (Mrt.msgLoop v par (lookupOrRegister reg par p).1 rest).out,
+       (Mrt.msgLoop v par (lookupOrRegister reg par p).1 rest).status⟩ := by
+  simp only [Mrt.msgLoop, lookupOrRegister]
+  cases reg.find (some par) p <;> rfl
+
+/-- A peer that the register answers an id for keeps that id through the rest of the file. -/
+theorem msgLoop_find_mono (v : Mrt.Variant) (par : Nat) (recs : List Mrt.Rec) (reg : Mrt.Reg) (q : Mrt.Peer) (id : Nat)
+    (h : reg.find (some par) q = some id) : (Mrt.msgLoop v par reg recs).reg.find (some par) q = some id := by
+  induction recs generalizing reg with
+  | nil => exact h
+  | cons r recs ih =>
+    cases r with
+    | msg p m =>
+      cases m with
+      | update v6 ann wd a =>
+        rw [msgLoop_update]
+        exact ih _ (lookupOrRegister_mono reg par p q id h)
+      | other => simpa [Mrt.msgLoop] using ih reg h
+      | garbage => simpa [Mrt.msgLoop] using ih reg h
+    | stateChange p old new => simpa [Mrt.msgLoop] using ih reg h
+    | peerIndex ps => simpa [Mrt.msgLoop] using ih reg h
+    | rib v6 pfx es => simpa [Mrt.msgLoop] using ih reg h
+    | ribOther => simpa [Mrt.msgLoop] using ih reg h
+    | localMsg => simpa [Mrt.msgLoop] using h
+    | otherType => simpa [Mrt.msgLoop] using h
+
+/-! ### An update file's gate output is the per-peer history `fileEvents` -/
+
+theorem histOf_withdraws (ι : PfxInterp) (w o : List Mrt.Upd) (as : List Nat)
+    (hw : ∀ u ∈ w, ∃ id, u = .withdraw id) :
+    histOf ι (w ++ o) as = histOf ι w as ++ histOf ι o as := by
+  rw [histOf_append, Mrt.bulksOf_withdraws w hw]
+  rfl
+
+/-- `fileEvents` that also stops where `msgLoop` stops. -/
+def fileEventsM (ι : PfxInterp) (v : Mrt.Variant) (idOf : Mrt.Peer → Nat) (known : Mrt.Peer → Bool) : List Mrt.Rec → Rib.History
+  | [] => []
+  | .otherType :: _ => []
+  | .localMsg :: _ => []
+  | .msg q (.update v6 ann wd a) :: rest =>
+    .upd (idOf q) (.ok a (ann.map (nlri ι v6)) ((Mrt.keptWd v ann wd).map (nlri ι v6)))
+      :: fileEventsM ι v idOf (fun x => decide (x = q) || known x) rest
+  | .stateChange q old new :: rest =>
+    (if old = Mrt.established ∧ new = Mrt.idle ∧ v.sc = .repaired ∧ known q = true then [Rib.Ev.down (idOf q)] else [])
+      ++ fileEventsM ι v idOf known rest
+  | _ :: rest => fileEventsM ι v idOf known rest
+
+theorem fileEventsM_eq (ι : PfxInterp) (v : Mrt.Variant) (idOf : Mrt.Peer → Nat) (recs : List Mrt.Rec)
+    (h : recs.all Mrt.Rec.isBgp4mpSupported = true) (known : Mrt.Peer → Bool) :
+    fileEventsM ι v idOf known recs = fileEvents ι v idOf known recs := by
+  induction recs generalizing known with
+  | nil => rfl
+  | cons r recs ih =>
+    simp only [List.all_cons, Bool.and_eq_true] at h
+    cases r with
+    | msg p m => cases m <;> simp [fileEventsM, fileEvents, ih h.2]
+    | stateChange p old new => simp [fileEventsM, fileEvents, ih h.2]
+    | _ => simp [Mrt.Rec.isBgp4mpSupported] at h
+
+/-- **Every record list** (whatever it contains, wherever the reader gives up): the gate output of the
+    messages pass, read as a C01 history, is the file's UPDATEs and effective Established→Idle state
+    changes in file order, each under the id the *final* register answers for its peer — one id per
+    peer for the whole file. -/
+theorem histOf_msgLoop (ι : PfxInterp) (v : Mrt.Variant) (par : Nat) (recs : List Mrt.Rec) (reg : Mrt.Reg) (idOf : Mrt.Peer → Nat)
+    (hid : ∀ q id, (Mrt.msgLoop v par reg recs).reg.find (some par) q = some id → idOf q = id) :
+    histOf ι (Mrt.msgLoop v par reg recs).out (msgAttrs recs)
+      = fileEventsM ι v idOf (knownIn reg par) recs := by
+  induction recs generalizing reg with
+  | nil => rfl
+  | cons r recs ih =>
+    cases r with
+    | msg p m =>
+      cases m with
+      | update v6 ann wd a =>
+        rw [msgLoop_update] at hid ⊢
+        simp only [histOf, msgAttrs, List.headD_cons, List.tail_cons, fileEventsM]
+        rw [ih _ hid]
+        have hk : knownIn (lookupOrRegister reg par p).1 par = fun x => decide (x = p) || knownIn reg par x := by
+          funext x; exact lookupOrRegister_known reg par p x
+        rw [hk, hid p _ (msgLoop_find_mono v par recs _ p _ (lookupOrRegister_find reg par p))]
+      | other => simpa [Mrt.msgLoop, msgAttrs, fileEventsM] using ih reg (by simpa [Mrt.msgLoop] using hid)
+      | garbage => simpa [Mrt.msgLoop, msgAttrs, fileEventsM] using ih reg (by simpa [Mrt.msgLoop] using hid)
+    | stateChange p old new =>
+      have hid' : ∀ q id, (Mrt.msgLoop v par reg recs).reg.find (some par) q = some id → idOf q = id := by
+        simpa [Mrt.msgLoop] using hid
+      simp only [Mrt.msgLoop, msgAttrs, fileEventsM]
+      rw [histOf_withdraws, ih reg hid']
+      · congr 1
+        by_cases hc : old = Mrt.established ∧ new = Mrt.idle
+        · simp only [hc, and_self, if_true, true_and]
+          cases hv : v.sc with
+          | asWritten => simp [Mrt.Reg.find, histOf]
+          | repaired =>
+            simp only [true_and, knownIn]
+            cases hf : reg.find (some par) p with
+            | none => simp [histOf]
+            | some id =>
+              have := hid' p id (msgLoop_find_mono v par recs reg p id hf)
+              simp [histOf, this]
+        · have : ¬ (old = Mrt.established ∧ new = Mrt.idle ∧ v.sc = .repaired ∧ knownIn reg par p = true) :=
+            fun h => hc ⟨h.1, h.2.1⟩
+          simp [hc, this, histOf]
+      · intro u hu
+        split at hu
+        · split at hu
+          · simp only [List.mem_singleton] at hu; exact ⟨_, hu⟩
+          · simp at hu
+        · simp at hu
+    | peerIndex ps => simpa [Mrt.msgLoop, msgAttrs, fileEventsM] using ih reg (by simpa [Mrt.msgLoop] using hid)
+    | rib v6 pfx es => simpa [Mrt.msgLoop, msgAttrs, fileEventsM] using ih reg (by simpa [Mrt.msgLoop] using hid)
+    | ribOther => simpa [Mrt.msgLoop, msgAttrs, fileEventsM] using ih reg (by simpa [Mrt.msgLoop] using hid)
+    | localMsg => simp [Mrt.msgLoop, histOf, fileEventsM]
+    | otherType => simp [Mrt.msgLoop, histOf, fileEventsM]
+
+/-! ### Identities registered once stay registered once -/
+
+theorem find_none_iff (r : Mrt.Reg) (par : Nat) (q : Mrt.Peer) :
+    r.find (some par) q = none ↔ (par, q) ∉ r.infos.map (·.2) := by
+  rw [find_eq, Option.map_eq_none_iff, List.find?_eq_none]
+  constructor
+  · intro h hm
+    obtain ⟨e, he, heq⟩ := List.mem_map.mp hm
+    apply h e he
+    simp only [decide_eq_true_eq]
+    exact ⟨by rw [heq], by rw [heq]⟩
+  · intro h e he hp
+    simp only [decide_eq_true_eq] at hp
+    exact h (List.mem_map.mpr ⟨e, he, Prod.ext hp.1 hp.2⟩)
+
+theorem inj_of_nodup_map {α β : Type} (f : α → β) (l : List α) (h : (l.map f).Nodup) (x y : α)
+    (hx : x ∈ l) (hy : y ∈ l) (hxy : f x = f y) : x = y := by
+  induction l with
+  | nil => cases hx
+  | cons a l ih =>
+    simp only [List.map_cons, List.nodup_cons, List.mem_map, not_exists, not_and] at h
+    rcases List.mem_cons.mp hx with rfl | hx' <;> rcases List.mem_cons.mp hy with rfl | hy'
+    · rfl
+    · exact absurd hxy.symm (h.1 y hy')
+    · exact absurd hxy (h.1 x hx')
+    · exact ih h.2 hx' hy'
+
+/-- With identities registered once, the lookup answers *the* id of the peer. -/
+theorem find_of_mem (r : Mrt.Reg) (h : NoDupIdent r) (id par : Nat) (q : Mrt.Peer) (hm : (id, par, q) ∈ r.infos) :
+    r.find (some par) q = some id := by
+  rw [find_eq]
+  cases hf : r.infos.find? (fun e => decide (e.2.1 = par ∧ e.2.2 = q)) with
+  | none =>
+    rw [List.find?_eq_none] at hf
+    exact absurd (by simp) (hf _ hm)
+  | some e =>
+    have he := List.mem_of_find?_eq_some hf
+    have hp := List.find?_some hf
+    simp only [decide_eq_true_eq] at hp
+    have : e = (id, par, q) :=
+      inj_of_nodup_map (fun (x : Nat × Nat × Mrt.Peer) => x.2) r.infos h e _ he hm (Prod.ext hp.1 hp.2)
+    simp [this]
+
+theorem mem_idsOf (r : Mrt.Reg) (par : Nat) (q : Mrt.Peer) (id : Nat) :
+    id ∈ idsOf r par q ↔ (id, par, q) ∈ r.infos := by
+  simp only [idsOf, List.mem_map, List.mem_filter, decide_eq_true_eq]
+  constructor
+  · rintro ⟨e, ⟨he, h1, h2⟩, rfl⟩
+    obtain ⟨a, b, c⟩ := e
+    simp only at h1 h2
+    subst h1 h2
+    exact he
+  · intro h
+    exact ⟨_, ⟨h, rfl, rfl⟩, rfl⟩
+
+theorem NoDup_register (r : Mrt.Reg) (par : Nat) (p : Mrt.Peer) (h : NoDupIdent r)
+    (hf : r.find (some par) p = none) : NoDupIdent (r.register par p).1 := by
+  rw [find_none_iff] at hf
+  simp only [NoDupIdent, Mrt.Reg.register, List.map_append, List.map_cons, List.map_nil]
+  rw [List.nodup_append]
+  refine ⟨h, by simp, ?_⟩
+  intro a ha b hb
+  simp only [List.mem_singleton] at hb
+  subst hb
+  intro e
+  exact hf (e ▸ ha)
+
+theorem NoDup_lookupOrRegister (r : Mrt.Reg) (par : Nat) (p : Mrt.Peer) (h : NoDupIdent r) :
+    NoDupIdent (lookupOrRegister r par p).1 := by
+  unfold lookupOrRegister
+  cases hf : r.find (some par) p with
+  | some id => exact h
+  | none => exact NoDup_register r par p h hf
+
+theorem NoDup_msgLoop (v : Mrt.Variant) (par : Nat) (recs : List Mrt.Rec) (reg : Mrt.Reg) (h : NoDupIdent reg) :
+    NoDupIdent (Mrt.msgLoop v par reg recs).reg := by
+  induction recs generalizing reg with
+  | nil => exact h
+  | cons r recs ih =>
+    cases r with
+    | msg p m =>
+      cases m with
+      | update v6 ann wd a =>
+        rw [msgLoop_update]
+        exact ih _ (NoDup_lookupOrRegister reg par p h)
+      | other => simpa [Mrt.msgLoop] using ih reg h
+      | garbage => simpa [Mrt.msgLoop] using ih reg h
+    | stateChange p old new => simpa [Mrt.msgLoop] using ih reg h
+    | peerIndex ps => simpa [Mrt.msgLoop] using ih reg h
+    | rib v6 pfx es => simpa [Mrt.msgLoop] using ih reg h
+    | ribOther => simpa [Mrt.msgLoop] using ih reg h
+    | localMsg => simpa [Mrt.msgLoop] using h
+    | otherType => simpa [Mrt.msgLoop] using h
+
+theorem findOrRegisterAll_cons (r : Mrt.Reg) (par : Nat) (p : Mrt.Peer) (ps : List Mrt.Peer) :
+    findOrRegisterAll r par (p :: ps) =
+      ((findOrRegisterAll (lookupOrRegister r par p).1 par ps).1,
+       (lookupOrRegister r par p).2 :: (findOrRegisterAll (lookupOrRegister r par p).1 par ps).2) := by
+  simp only [findOrRegisterAll, lookupOrRegister]
+  cases r.find (some par) p <;> rfl
+
+theorem NoDup_findOrRegisterAll (par : Nat) (ps : List Mrt.Peer) (r : Mrt.Reg) (h : NoDupIdent r) :
+    NoDupIdent (findOrRegisterAll r par ps).1 := by
+  induction ps generalizing r with
+  | nil => exact h
+  | cons p ps ih =>
+    rw [findOrRegisterAll_cons]
+    exact ih _ (NoDup_lookupOrRegister r par p h)
+
+/-! ### `processFile` by cases -/
+
+theorem processFile_asWritten (v : Variant) (hv : v.dumpreg = .asWritten) (parent : Nat) (reg : Mrt.Reg) (f : Mrt.File) :
+    processFile v parent reg f = Mrt.processFile v.mrt parent reg f := by
+  simp [processFile, hv]
+
+theorem processFile_unreadable (v : Variant) (parent : Nat) (reg : Mrt.Reg) (f : Mrt.File)
+    (h : f.comp.readable = false) : processFile v parent reg f = ⟨reg, [], .err⟩ := by
+  cases hv : v.dumpreg <;> simp [processFile, Mrt.processFile, hv, h]
+
+/-- The file does not start with a peer index table (`MrtFile::pi()` fails): no dump part. -/
+def noPeerIndex : List Mrt.Rec → Bool
+  | .peerIndex _ :: _ => false
+  | _ => true
+
+theorem processFile_updates (v : Variant) (parent : Nat) (reg : Mrt.Reg) (f : Mrt.File)
+    (hc : f.comp.readable = true) (hn : noPeerIndex f.recs = true) :
+    processFile v parent reg f = Mrt.msgLoop v.mrt parent reg f.recs := by
+  cases hv : v.dumpreg <;> simp only [processFile, Mrt.processFile, hv, hc, Bool.not_true, Bool.false_eq_true, if_false] <;>
+    (split
+     · rename_i ps rest heq; simp [heq, noPeerIndex] at hn
+     · rfl)
+
+theorem NoDup_processFile (v : Variant) (hv : v.dumpreg = .repaired) (parent : Nat) (reg : Mrt.Reg) (f : Mrt.File)
+    (h : NoDupIdent reg) : NoDupIdent (processFile v parent reg f).reg := by
+  by_cases hc : f.comp.readable = true
+  · simp only [processFile, hv, hc, Bool.not_true, Bool.false_eq_true, if_false]
+    split
+    · rename_i ps rest heq
+      have h1 := NoDup_findOrRegisterAll parent ps reg h
+      split
+      · exact h1
+      · exact NoDup_msgLoop _ _ _ _ h1
+    · exact NoDup_msgLoop _ _ _ _ h
+  · rw [processFile_unreadable v parent reg f (by simpa using hc)]
+    exact h
+
+/-! ### The dump part cut short -/
+
+/-- Records at which `RibEntryIterator` panics: everything but a non-empty unicast RIB record. -/
+def stopsDump : Mrt.Rec → Bool
+  | .rib _ _ (_ :: _) => false
+  | _ => true
+
+theorem dumpLoop_cut (base n : Nat) (ribs : List (Bool × Nat × List (Nat × Nat))) (bad : Mrt.Rec) (rest : List Mrt.Rec)
+    (h : Mrt.wellFormedRibs n ribs = true) (hb : stopsDump bad = true) :
+    Mrt.dumpLoop ((List.range n).map (base + ·)) (ribs.map Mrt.ribRec ++ bad :: rest) = (Mrt.dumpSpec base ribs, true) := by
+  induction ribs with
+  | nil =>
+    cases bad with
+    | rib v6 pfx es =>
+      cases es with
+      | nil => rfl
+      | cons e es => simp [stopsDump] at hb
+    | _ => rfl
+  | cons r ribs ih =>
+    obtain ⟨v6, pfx, es⟩ := r
+    simp only [Mrt.wellFormedRibs, Bool.and_eq_true, Bool.not_eq_true', List.isEmpty_eq_false_iff] at h
+    obtain ⟨⟨hne, hall⟩, hrest⟩ := h
+    cases es with
+    | nil => exact absurd rfl hne
+    | cons e es =>
+      simp only [List.map_cons, List.cons_append, Mrt.ribRec, Mrt.dumpLoop, Mrt.dumpEntries_ok v6 pfx base n (e :: es) hall, ih hrest]
+      simp [Mrt.dumpSpec]
+
+/-! ### The queue as one history -/
+
+/-- The C01 history a queue of files denotes (register threaded file to file; as written the queue
+    ends with the file that panics). -/
+def queueHist (ι : PfxInterp) (v : Variant) (parent : Nat) : Mrt.Reg → List Mrt.File → Rib.History
+  | _, [] => []
+  | reg, f :: fs =>
+    match (processFile v parent reg f).status, v.mrt.iso with
+    | .panic, .asWritten => histOf ι (processFile v parent reg f).out (msgAttrs f.recs)
+    | _, _ => histOf ι (processFile v parent reg f).out (msgAttrs f.recs)
+                ++ queueHist ι v parent (processFile v parent reg f).reg fs
+
+/-- The register after a queue (it does not depend on the RIB). -/
+def queueReg (v : Variant) (parent : Nat) : Mrt.Reg → List Mrt.File → Mrt.Reg
+  | reg, [] => reg
+  | reg, f :: fs =>
+    match (processFile v parent reg f).status, v.mrt.iso with
+    | .panic, .asWritten => (processFile v parent reg f).reg
+    | _, _ => queueReg v parent (processFile v parent reg f).reg fs
+
+theorem importFile_rib (ι : PfxInterp) (v : Variant) (parent : Nat) (s : State) (f : Mrt.File) :
+    (importFile ι v parent s f).rib
+      = Rib.runFrom (ribVariant v) s.rib (histOf ι (processFile v parent s.reg f).out (msgAttrs f.recs)) :=
+  applyAll_annotate ι v.rib _ _ s.rib
+
+theorem runFrom_append (v : Rib.Variant) (r : Rib) (h1 h2 : Rib.History) :
+    Rib.runFrom v r (h1 ++ h2) = Rib.runFrom v (Rib.runFrom v r h1) h2 := by
+  simp [Rib.runFrom, List.foldl_append]
+
+/-- The consumer dies with this file (as written: a panic inside `process_file`). -/
+def dies (v : Variant) (parent : Nat) (reg : Mrt.Reg) (f : Mrt.File) : Prop :=
+  (processFile v parent reg f).status = .panic ∧ v.mrt.iso = .asWritten
+
+instance (v : Variant) (parent : Nat) (reg : Mrt.Reg) (f : Mrt.File) : Decidable (dies v parent reg f) := by
+  unfold dies; exact inferInstance
+
+theorem importQueue_dead (ι : PfxInterp) (v : Variant) (parent : Nat) (s : State) (f : Mrt.File) (fs : List Mrt.File)
+    (h : dies v parent s.reg f) :
+    importQueue ι v parent s (f :: fs) = ⟨importFile ι v parent s f, (f :: fs).map fun _ => false⟩ := by
+  simp only [importQueue, fileStatus]
+  split
+  · rfl
+  · rename_i hn; exact absurd h.2 (hn h.1)
+
+theorem importQueue_live (ι : PfxInterp) (v : Variant) (parent : Nat) (s : State) (f : Mrt.File) (fs : List Mrt.File)
+    (h : ¬ dies v parent s.reg f) :
+    importQueue ι v parent s (f :: fs) =
+      ⟨(importQueue ι v parent (importFile ι v parent s f) fs).st, true :: (importQueue ι v parent (importFile ι v parent s f) fs).resps⟩ := by
+  simp only [importQueue, fileStatus]
+  split
+  · rename_i h1 h2; exact absurd ⟨h1, h2⟩ h
+  · rfl
+
+theorem queueHist_dead (ι : PfxInterp) (v : Variant) (parent : Nat) (reg : Mrt.Reg) (f : Mrt.File) (fs : List Mrt.File)
+    (h : dies v parent reg f) :
+    queueHist ι v parent reg (f :: fs) = histOf ι (processFile v parent reg f).out (msgAttrs f.recs) := by
+  simp only [queueHist]
+  split
+  · rfl
+  · rename_i hn; exact absurd h.2 (hn h.1)
+
+theorem queueHist_live (ι : PfxInterp) (v : Variant) (parent : Nat) (reg : Mrt.Reg) (f : Mrt.File) (fs : List Mrt.File)
+    (h : ¬ dies v parent reg f) :
+    queueHist ι v parent reg (f :: fs) = histOf ι (processFile v parent reg f).out (msgAttrs f.recs)
+      ++ queueHist ι v parent (processFile v parent reg f).reg fs := by
+  simp only [queueHist]
+  split
+  · rename_i h1 h2; exact absurd ⟨h1, h2⟩ h
+  · rfl
+
+theorem queueReg_dead (v : Variant) (parent : Nat) (reg : Mrt.Reg) (f : Mrt.File) (fs : List Mrt.File)
+    (h : dies v parent reg f) : queueReg v parent reg (f :: fs) = (processFile v parent reg f).reg := by
+  simp only [queueReg]
+  split
+  · rfl
+  · rename_i hn; exact absurd h.2 (hn h.1)
+
+theorem queueReg_live (v : Variant) (parent : Nat) (reg : Mrt.Reg) (f : Mrt.File) (fs : List Mrt.File)
+    (h : ¬ dies v parent reg f) :
+    queueReg v parent reg (f :: fs) = queueReg v parent (processFile v parent reg f).reg fs := by
+  simp only [queueReg]
+  split
+  · rename_i h1 h2; exact absurd ⟨h1, h2⟩ h
+  · rfl
+
+theorem importQueue_rib (ι : PfxInterp) (v : Variant) (parent : Nat) (fs : List Mrt.File) (s : State) :
+    (importQueue ι v parent s fs).st.rib = Rib.runFrom (ribVariant v) s.rib (queueHist ι v parent s.reg fs) := by
+  induction fs generalizing s with
+  | nil => rfl
+  | cons f fs ih =>
+    by_cases h : dies v parent s.reg f
+    · rw [importQueue_dead ι v parent s f fs h, queueHist_dead ι v parent s.reg f fs h]
+      exact importFile_rib ι v parent s f
+    · rw [importQueue_live ι v parent s f fs h, queueHist_live ι v parent s.reg f fs h, runFrom_append,
+        ← importFile_rib]
+      exact ih _
+
+theorem importQueue_reg (ι : PfxInterp) (v : Variant) (parent : Nat) (fs : List Mrt.File) (s : State) :
+    (importQueue ι v parent s fs).st.reg = queueReg v parent s.reg fs := by
+  induction fs generalizing s with
+  | nil => rfl
+  | cons f fs ih =>
+    by_cases h : dies v parent s.reg f
+    · rw [importQueue_dead ι v parent s f fs h, queueReg_dead v parent s.reg f fs h]
+      rfl
+    · rw [importQueue_live ι v parent s f fs h, queueReg_live v parent s.reg f fs h]
+      exact ih _
+
+theorem NoDup_queueReg (v : Variant) (hv : v.dumpreg = .repaired) (parent : Nat) (fs : List Mrt.File) (reg : Mrt.Reg)
+    (h : NoDupIdent reg) : NoDupIdent (queueReg v parent reg fs) := by
+  induction fs generalizing reg with
+  | nil => exact h
+  | cons f fs ih =>
+    by_cases hd : dies v parent reg f
+    · rw [queueReg_dead v parent reg f fs hd]
+      exact NoDup_processFile v hv parent reg f h
+    · rw [queueReg_live v parent reg f fs hd]
+      exact ih _ (NoDup_processFile v hv parent reg f h)
 
 end Rotonda.PipeMrt
